@@ -1,0 +1,9 @@
+//go:build verif
+
+package constant
+
+// VerifCalcMaxHexEntropy exposes calcMaxHexEntropy to the verification harness.
+func VerifCalcMaxHexEntropy(length int) float64 { return calcMaxHexEntropy(length) }
+
+// VerifDigitValue exposes digitValue to the verification harness.
+func VerifDigitValue(b byte) int { return digitValue(b) }
